@@ -35,6 +35,19 @@ pub struct Tuple1(Entity);
 pub struct Tuple3(Entity, u8, Entity);
 #[derive(ConvertSaveload, Clone, PartialEq, Debug)]
 pub struct TupleSkip(#[convert_save_load_skip_convert] u8, Entity, #[convert_save_load_skip_convert] u8);
+/// a skip field BEFORE a converted field of the same type (reordering type-checks)
+#[derive(ConvertSaveload, Clone, PartialEq, Debug)]
+pub struct TupleSkipMid(Entity, #[convert_save_load_skip_convert] u8, u8, Entity);
+#[derive(ConvertSaveload, Clone, PartialEq, Debug)]
+pub struct NamedSkipMid {
+    #[convert_save_load_skip_convert]
+    s: u8,
+    a: u8,
+    e: Entity,
+    #[convert_save_load_skip_convert]
+    s2: u8,
+    b: u8,
+}
 #[derive(ConvertSaveload, Clone, PartialEq, Debug)]
 pub struct Nested {
     inner: Named3,
@@ -70,6 +83,17 @@ pub enum EnumSame {
     D { e: Entity },
     U1,
     U2,
+}
+/// variants with skip fields among same-typed fields
+#[derive(ConvertSaveload, Clone, PartialEq, Debug)]
+pub enum EnumSkip {
+    T(#[convert_save_load_skip_convert] u8, u8, Entity),
+    S {
+        a: u8,
+        #[convert_save_load_skip_convert]
+        s: u8,
+        e: Entity,
+    },
 }
 #[derive(ConvertSaveload, Clone, PartialEq, Debug)]
 pub enum EnumNested {
@@ -193,6 +217,41 @@ pub fn rt_tuple_skip() {
     assert!(y == x, "C18: derived conversion does not round-trip");
     witness!(x.0 != x.2, "derive: distinguishable skip fields");
 }
+pub fn rt_tuple_skip_mid() {
+    let map = Map::any();
+    let x = TupleSkipMid(map.pick(), nd::u8(), nd::u8(), map.pick());
+    let (d, y) = round_trip(&x, &map);
+    assert!(d.1 == x.1 && d.2 == x.2, "C18: skip / plain tuple fields swapped or changed");
+    assert!(d.0 == mkr(&map, x.0) && d.3 == mkr(&map, x.3), "C18: entity field not mapped through the marker mapping");
+    assert!(y == x, "C18: derived conversion does not round-trip");
+    witness!(x.1 != x.2 && x.0 != x.3, "derive: distinguishable same-typed fields");
+}
+pub fn rt_named_skip_mid() {
+    let map = Map::any();
+    let x = NamedSkipMid { s: nd::u8(), a: nd::u8(), e: map.pick(), s2: nd::u8(), b: nd::u8() };
+    let (d, y) = round_trip(&x, &map);
+    assert!(d.s == x.s && d.s2 == x.s2 && d.a == x.a && d.b == x.b, "C18: skip / plain fields swapped or changed");
+    assert!(d.e == mkr(&map, x.e), "C18: entity field not mapped through the marker mapping");
+    assert!(y == x, "C18: derived conversion does not round-trip");
+    witness!(x.s != x.a && x.s2 != x.b, "derive: distinguishable same-typed fields");
+}
+pub fn rt_enum_skip() {
+    let map = Map::any();
+    let x = if nd::bool() {
+        EnumSkip::T(nd::u8(), nd::u8(), map.pick())
+    } else {
+        EnumSkip::S { a: nd::u8(), s: nd::u8(), e: map.pick() }
+    };
+    let (d, y) = round_trip(&x, &map);
+    let ok = match (&x, &d) {
+        (EnumSkip::T(s, a, e), EnumSkipSaveloadData::T(s2, a2, m)) => s == s2 && a == a2 && *m == mkr(&map, *e),
+        (EnumSkip::S { a, s, e }, EnumSkipSaveloadData::S { a: a2, s: s2, e: m }) => s == s2 && a == a2 && *m == mkr(&map, *e),
+        _ => false,
+    };
+    assert!(ok, "C18: variant fields (with skip fields) not converted field-wise");
+    assert!(y == x, "C18: derived conversion does not round-trip");
+    witness!(matches!(x, EnumSkip::T(..)), "derive: tuple variant with a skip field");
+}
 pub fn rt_nested() {
     let map = Map::any();
     let x = Nested { inner: mk_named3(&map), t: mk_tuple3(&map), z: nd::u8() };
@@ -285,6 +344,9 @@ harness! { fn q_rt_named_skip() unwind(5) { rt_named_skip() } }
 harness! { fn q_rt_tuple1() unwind(5) { rt_tuple1() } }
 harness! { fn q_rt_tuple3() unwind(5) { rt_tuple3() } }
 harness! { fn q_rt_tuple_skip() unwind(5) { rt_tuple_skip() } }
+harness! { fn q_rt_tuple_skip_mid() unwind(5) { rt_tuple_skip_mid() } }
+harness! { fn q_rt_named_skip_mid() unwind(5) { rt_named_skip_mid() } }
+harness! { fn q_rt_enum_skip() unwind(5) { rt_enum_skip() } }
 harness! { fn q_rt_nested() unwind(5) { rt_nested() } }
 harness! { fn q_rt_generic() unwind(5) { rt_generic() } }
 harness! { fn q_rt_forwarded() unwind(5) { rt_forwarded() } }
@@ -297,5 +359,6 @@ pub const REGISTRY: &[(&str, fn())] = &[
     ("q_rt_named_skip", q_rt_named_skip), ("q_rt_tuple1", q_rt_tuple1), ("q_rt_tuple3", q_rt_tuple3),
     ("q_rt_tuple_skip", q_rt_tuple_skip), ("q_rt_nested", q_rt_nested), ("q_rt_generic", q_rt_generic),
     ("q_rt_forwarded", q_rt_forwarded), ("q_rt_enum_all", q_rt_enum_all), ("q_rt_enum_same", q_rt_enum_same),
-    ("q_rt_enum_nested", q_rt_enum_nested),
+    ("q_rt_enum_nested", q_rt_enum_nested), ("q_rt_tuple_skip_mid", q_rt_tuple_skip_mid), ("q_rt_named_skip_mid", q_rt_named_skip_mid),
+    ("q_rt_enum_skip", q_rt_enum_skip),
 ];
